@@ -227,20 +227,56 @@ def run(rep: Report, prog: Program, tier: str) -> None:
     ser, par = prog.func("rtp.RtpPacket.serialize"), prog.func("rtp.RtpPacket.parse")
     emap = SimpleNamespace(__cls__=hem)
     setattr(emap, "__ids", new(prog, hook, "rtp.HeaderExtensions"))
-    for ncsrc, marker, pad, plen in itertools.product((0, 1, 15), (0, 1), (0, 1, 4), (0, 1, 200)):
+    def _rtp_case(ncsrc, marker, pad, plen, ext_label, the_map, ext_vals):
+        import struct as _st
         p = new(prog, hook, "rtp.RtpPacket", payload_type=127, marker=marker, sequence_number=65535, timestamp=0xFFFFFFFF, ssrc=0xDEADBEEF, payload=bytes([9] * plen))
         p.csrc = [1000 + i for i in range(ncsrc)]
         p.padding_size = pad
-        raw = safely(hook.run_method, ser, p, [emap], {})
-        desc = f"{ncsrc} csrc, marker {marker}, padding {pad}, payload {plen}"
+        for k_, v_ in ext_vals.items():
+            setattr(p.extensions, k_, v_)
+        raw = safely(hook.run_method, ser, p, [the_map], {})
+        desc = f"{ncsrc} csrc, marker {marker}, padding {pad}, payload {plen}" + ("" if not ext_vals else f", {ext_label}")
         if isinstance(raw, str):
             rep.fail(mk_finding(prog, PROP, "C07-RTP", ser, ser.node, f"RTP {desc}: {raw}", construct=f"rtp {desc}"))
-            continue
-        back = safely(hook.run_method, par, ClassRef(prog.cls("rtp.RtpPacket")), [raw, emap], {})
+            return
+        # RFC 3550 section 5.1 layout of what was written: V=2, X, CC, then the CSRC list directly after the 12-byte fixed header,
+        # then (X=1) the extension header
+        problems = []
+        if len(raw) < 12 + 4 * ncsrc or raw[0] >> 6 != 2 or raw[0] & 0x0F != ncsrc or bool(raw[0] & 0x10) != bool(ext_vals) or bool(raw[0] & 0x20) != bool(pad):
+            problems.append(f"first octet {raw[0]:#04x} does not say V=2, P={int(bool(pad))}, X={int(bool(ext_vals))}, CC={ncsrc}")
+        elif raw[12:12 + 4 * ncsrc] != b"".join(_st.pack("!L", c) for c in p.csrc):
+            problems.append("the CSRC list does not directly follow the 12-byte fixed header")
+        elif ext_vals and _st.unpack_from("!H", raw, 12 + 4 * ncsrc)[0] not in (0xBEDE, 0x1000):
+            problems.append("the extension header does not follow the CSRC list")
+        if raw[1] != (marker << 7 | 127) or raw[2:12] != _st.pack("!HLL", 65535, 0xFFFFFFFF, 0xDEADBEEF):
+            problems.append("marker / payload type / sequence number / timestamp / SSRC are not at their RFC 3550 offsets")
+        if problems:
+            rep.fail(mk_finding(prog, PROP, "C07-RTP", ser, ser.node, f"RTP {desc} is written as {raw[:40].hex()}…: {problems[0]}", construct=f"rtp layout {desc}"))
+            return
+        back = safely(hook.run_method, par, ClassRef(prog.cls("rtp.RtpPacket")), [raw, the_map], {})
         if isinstance(back, SimpleNamespace) and same(back, p):
-            rep.ok("C07-RTP", f"rtp {desc}", sample=f"{len(raw)} bytes parse back to an equal packet")
+            rep.ok("C07-RTP", f"rtp {desc}", sample=f"{len(raw)} bytes with the RFC 3550 layout parse back to an equal packet")
         else:
             rep.fail(mk_finding(prog, PROP, "C07-RTP", par, par.node, f"RTP {desc} parses back as {show(back)[:200]}", construct=f"rtp {desc}"))
+
+    # extension maps: none configured / one-byte ids / a two-byte id
+    emap1 = SimpleNamespace(__cls__=hem)
+    ids1 = new(prog, hook, "rtp.HeaderExtensions")
+    ids1.mid, ids1.abs_send_time = 3, 4
+    setattr(emap1, "__ids", ids1)
+    emap2 = SimpleNamespace(__cls__=hem)
+    ids2 = new(prog, hook, "rtp.HeaderExtensions")
+    ids2.mid, ids2.audio_level = 20, 2
+    setattr(emap2, "__ids", ids2)
+    ext_cases = [("no extension", emap, {})]
+    for ncsrc, marker, pad, plen in itertools.product((0, 1, 15), (0, 1), (0, 1, 4), (0, 1, 200)):
+        ext_cases_here = [("no extension", emap, {})]
+        if marker == 1 and pad in (0, 4) and plen in (0, 200):
+            ext_cases_here += [("mid+abs-send-time (one-byte form)", emap1, {"mid": "a", "abs_send_time": 0x010203}),
+                               ("mid (one-byte form)", emap1, {"mid": "audio"}),
+                               ("mid+audio-level (two-byte form)", emap2, {"mid": "0", "audio_level": (True, 5)})]
+        for ext_label, the_map, ext_vals in ext_cases_here:
+            _rtp_case(ncsrc, marker, pad, plen, ext_label, the_map, ext_vals)
     for plen in (0, 1, 100):
         p = new(prog, hook, "rtp.RtpPacket", payload_type=96, marker=1, sequence_number=65535, timestamp=77, ssrc=5, payload=bytes([3] * plen))
         p.csrc = [4]
